@@ -637,6 +637,27 @@ impl Instance {
                 self.model.write(&key, s, MKind::WeakDel, Loc::Active);
                 self.post_write(&[key])
             }
+            Op::LatePair { a, b, vlen, rotate } => {
+                let (a, b) = (*a % nkeys, *b % nkeys);
+                if a == b || self.uni.class[a] == Class::W || self.uni.class[b] == Class::W {
+                    return Ok(());
+                }
+                let (ka, kb) = (self.uni.keys[a].clone(), self.uni.keys[b].clone());
+                let (va, vb) = (self.next_value(*vlen), self.next_value(*vlen));
+                // writer A draws s1, writer B draws s2 and gets ahead; the visible counter is only published once both are applied
+                let s1 = self.seqno.next();
+                let s2 = self.seqno.next();
+                let _ = self.tree().insert(kb.clone(), vb.clone(), s2);
+                self.model.write(&kb, s2, MKind::Put(vb), Loc::Active);
+                if *rotate && self.tree().rotate_memtable().is_some() {
+                    self.model.rotate();
+                }
+                let _ = self.tree().insert(ka.clone(), va.clone(), s1);
+                self.model.write(&ka, s1, MKind::Put(va), Loc::Active);
+                self.visible.fetch_max(s2 + 1);
+                bump(&mut self.counters, "late_pairs", 1);
+                self.post_write(&[ka, kb])
+            }
             Op::Batch { items } => {
                 let s = self.seqno.next();
                 let mut touched = vec![];
